@@ -34,6 +34,9 @@ def template_of(e: ast.AST, resolve: Callable[[ast.Name], ast.expr | None] | Non
                 sub = template_of(p.value, resolve, _depth + 1) if isinstance(p.value, (ast.JoinedStr, ast.IfExp)) else None
                 if isinstance(p.value, ast.Name) and resolve is not None and _depth < 4:
                     d = resolve(p.value)
+                    if isinstance(d, ast.IfExp):
+                        out.append(Hole(d, norm(d)))
+                        continue
                     if d is not None:
                         sub = template_of(d, resolve, _depth + 1)
                 if sub is not None and not isinstance(p.value, ast.IfExp):
